@@ -595,8 +595,9 @@ def load_function(result=_AnyYAML, *args):     # type: ignore
     # add loaders for additional types
     if UserLoader._additional_classes is None:
         UserLoader._additional_classes = dict()
-    UserLoader.add_constructor('!Path', PathConstructor())
-    UserLoader._additional_classes[Path] = '!Path'
+    # (a tag that a user class cannot have, whatever its name is)
+    UserLoader.add_constructor('!pathlib.Path', PathConstructor())
+    UserLoader._additional_classes[Path] = '!pathlib.Path'
 
     additional_types = (Path,)
 
